@@ -293,3 +293,46 @@ func VerifC11Many() {
 	verifAssert(err != nil, "C11.many.reported")
 	verifAssert(verifQuiesce() == 0, "C11.noleak/many")
 }
+
+func init() {
+	verifRegister("VerifC11ManyGood", VerifC11ManyGood)
+}
+
+// VerifC11ManyGood: more GOOD root blocks than a stage has workers plus what its channels buffer (12..14 blocks;
+// ten workers per stage, error channels of capacity one): every massive operation -- text, JSON, dry-run, walk, mkdir
+// into an empty target, verify against a target that holds every node -- returns nil and leaves nothing behind.
+func VerifC11ManyGood() {
+	k := 12 + int(verifChoose("blocks", 0, 2))
+	var rows []string
+	vfsReset()
+	op := verifChoose("op", 0, 5)
+	for i := 0; i < k; i++ {
+		r := "r" + string(rune('a'+i))
+		rows = append(rows, "- "+r, "  - c")
+		if op == 5 {
+			vfsAdd([]string{r, "c"}, 1)
+		}
+	}
+	vfsSeal()
+	ctx := context.Background()
+	w := newVerifWriter()
+	var err error
+	verifContext("C11.manygood")
+	switch op {
+	case 0:
+		err = OutputFromMarkdown(w, &verifReader{lines: rows}, WithMassive(ctx))
+	case 1:
+		err = OutputFromMarkdown(w, &verifReader{lines: rows}, WithMassive(ctx), WithEncodeJSON())
+	case 2:
+		err = OutputFromMarkdown(w, &verifReader{lines: rows}, WithMassive(ctx), WithDryRun())
+	case 3:
+		err = WalkFromMarkdown(&verifReader{lines: rows}, func(*WalkerNode) error { return nil }, WithMassive(ctx))
+	case 4:
+		err = MkdirFromMarkdown(&verifReader{lines: rows}, WithMassive(ctx), WithTargetDir(vfsTarget()))
+	case 5:
+		err = VerifyFromMarkdown(&verifReader{lines: rows}, WithMassive(ctx), WithTargetDir(vfsTarget()))
+	}
+	verifReach("C11.manygood.returns")
+	verifAssert(err == nil, "C11.manygood.nil")
+	verifAssert(verifQuiesce() == 0, "C11.noleak/manygood")
+}
